@@ -1,6 +1,7 @@
 package parser
 
 import (
+	"bytes"
 	"encoding/xml"
 	"io"
 
@@ -89,6 +90,7 @@ type xmlParser struct {
 	attrPos    int
 	peeked     xml.Token
 	peekedErr  error
+	depth      int
 }
 
 func (x *xmlParser) Pull() (node.Node, bool, error) {
@@ -157,8 +159,20 @@ func (x *xmlParser) nextToken() (xml.Token, error) {
 			continue
 		}
 
-		if text, ok := tok.(xml.CharData); ok {
-			return x.mergeCharData(text), nil
+		switch t := tok.(type) {
+		case xml.StartElement:
+			x.depth++
+		case xml.EndElement:
+			x.depth--
+		case xml.CharData:
+			text := x.mergeCharData(t)
+
+			// White space outside of the document element is not part of the tree.
+			if x.depth <= 0 && len(bytes.TrimLeft(text, " \t\r\n")) == 0 {
+				continue
+			}
+
+			return text, nil
 		}
 
 		return tok, nil
